@@ -4,6 +4,27 @@ For each /tmp/mw/<ID>/_mutants/m*: confirm it independently (bin/confirm_mutant.
 /verif/seeded/<ID>/<mK>/ and run the property's quick check against a scratch copy with the change applied
 (bin/mutant_test.sh); the verdict is stored in meta.json under "verif"."""
 import glob, json, os, shutil, subprocess, sys
+def rebase_patch(dst):
+    """Re-express patch.diff against the current HEAD of /repo (hooks and fixes landed after the change was seeded)."""
+    import tempfile
+    w = tempfile.mkdtemp(prefix="/tmp/rb-"); os.rmdir(w)
+    subprocess.run(["git", "-C", "/repo", "worktree", "add", "--detach", w, "HEAD", "-q"], check=True)
+    try:
+        pf = os.path.join(dst, "patch.diff")
+        r = subprocess.run("git apply --3way %s 2>/dev/null || patch -p1 -s --no-backup-if-mismatch < %s" % (pf, pf), shell=True, cwd=w)
+        if r.returncode != 0:
+            return False
+        d = subprocess.run(["git", "diff", "HEAD"], cwd=w, stdout=subprocess.PIPE, text=True).stdout
+        if d.strip() and d != open(pf).read():
+            if not os.path.exists(os.path.join(dst, "patch.orig.diff")):
+                shutil.copy(pf, os.path.join(dst, "patch.orig.diff"))
+            open(pf, "w").write(d)
+        return True
+    finally:
+        subprocess.run(["git", "-C", "/repo", "worktree", "remove", "--force", w])
+        shutil.rmtree(w, ignore_errors=True)
+
+
 pid = sys.argv[1]
 nocheck = "--no-check" in sys.argv
 for m in sorted(glob.glob("/tmp/mw/%s/_mutants/m*" % pid)):
@@ -24,6 +45,7 @@ for m in sorted(glob.glob("/tmp/mw/%s/_mutants/m*" % pid)):
             meta = {"property": pid, "title": name, "note": "meta.json of the seeding agent was not valid JSON"}
         meta["confirmed"] = line[-1]
         json.dump(meta, open(os.path.join(dst, "meta.json"), "w"), indent=1)
+    rebase_patch(dst)
     if nocheck:
         continue
     meta = json.load(open(os.path.join(dst, "meta.json")))
